@@ -146,6 +146,24 @@ CHECKS["C15"] = dict(level="model_checking", ref="DESIGN.md 5 C15",
          "(stale commit after a concurrent commit; re-creation of a concurrently destroyed object) are accepted only as "
          "the named deviation in exactly those schedules and printed as KNOWN-FINDING after a required-protocol "
          "validation of an example rejects it.")
+CHECKS["C18"] = dict(level="model_checking", ref="DESIGN.md 5 C18",
+    tech="TLA+ specifications Conc (threads as recorded lock programs; scheduler with bounded preemption) and ConcLin "
+         "(interval linearizability of what threads observe) + TLC (deadlock freedom of all interleavings; enumeration "
+         "of schedules) + replay of the schedules on real threads through the CK_C_INITIALIZE_ARGS mutex callbacks + "
+         "TLC trace validation; free-running stress validated the same way",
+    text="C_Initialize gets the four mutex callbacks and the callbacks are the scheduler: one thread runs at a time, a "
+         "switch can happen before every LockMutex (in 'full' mode also after every UnlockMutex) and at call boundaries. "
+         "A calibration run records every thread's lock program; TLC checks on Conc.tla that no interleaving of these "
+         "programs deadlocks and enumerates every schedule with at most k preemptions (exhaustively for k = 1, sampled "
+         "uniformly from the graph beyond the cap); the driver imposes them on real threads (each with its own session; "
+         "token and session objects, searches, attribute changes, destruction, session churn, cryptography). TLC "
+         "validates begin/end of every call against ConcLin: a search returns everything live during the whole call and "
+         "nothing never-live, nothing twice, no handle issued twice, own-object results exact, every call returns, final "
+         "token content exact. 8- and 16-thread free-running runs with OS locking are validated the same way.",
+    note="Trusted: TLC, vf/drv_conc.py (scheduler in the callbacks). File backend as the property states. Code that shares "
+         "state without a mutex is reached only by the free-running part. Two known findings (object visible before its "
+         "creation completed; torn read of a token object under concurrent searches) are accepted only in the scoped "
+         "situations ConcLin names and printed as KNOWN-FINDING after the model without the deviation rejects an example.")
 NA = {
     "C17": "memory safety and arbitrary byte-level inputs are outside what a TLA+ specification and trace validation can "
            "observe (DESIGN.md 5 C17); crashes met while replaying are reported under the property whose check ran",
